@@ -23,7 +23,7 @@ const (
 	fBE   = iota // big endian unsigned integer of Size bytes
 	fLE          // little endian
 	fText        // decimal ASCII number occupying [Off, Off+Size)
-	fVar         // QUIC variable-length integer occupying [Off, Off+Size)
+	fVar         // MoQ variable-length integer occupying [Off, Off+Size)
 )
 
 // Field is a length-like field of a message.
